@@ -120,29 +120,29 @@ Proof.
   destruct (p c) eqn:E; cbn [skipn]; [exact IH|exact E].
 Qed.
 
-Lemma blank_tab_fixed c : is_blank_tab cfg_fixed c = is_ws_no_nl c.
+Lemma blank_tab_repaired c : is_blank_tab cfg_repaired c = is_ws_no_nl c.
 Proof.
-  unfold is_blank_tab, is_ws_no_nl, cfg_fixed. cbn [fix_ws andb].
+  unfold is_blank_tab, is_ws_no_nl, cfg_repaired. cbn [fix_ws andb].
   destruct (c =? 32), (c =? 9), (c =? 13), (c =? 11), (c =? 12); reflexivity.
 Qed.
 
-Lemma line_ok_fixed l : line_ok cfg_fixed l = true.
+Lemma line_ok_repaired l : line_ok cfg_repaired l = true.
 Proof.
-  unfold line_ok. pose proof (span_skipn_head (is_blank_tab cfg_fixed) l) as H.
-  destruct (skipn (span (is_blank_tab cfg_fixed) l) l) as [|c r]; [reflexivity|].
-  rewrite blank_tab_fixed in H. now rewrite H.
+  unfold line_ok. pose proof (span_skipn_head (is_blank_tab cfg_repaired) l) as H.
+  destruct (skipn (span (is_blank_tab cfg_repaired) l) l) as [|c r]; [reflexivity|].
+  rewrite blank_tab_repaired in H. now rewrite H.
 Qed.
 
-Theorem combine_comments_text_fixed_lemma : forall u, go_ctext cfg_fixed u = spec_content u.
+Theorem combine_comments_text_repaired_lemma : forall u, go_ctext cfg_repaired u = spec_content u.
 Proof.
   intros u. apply combine_comments_text_lemma. unfold text_ok.
   destruct (u_blk u); [|reflexivity]. cbn [negb orb].
-  apply forallb_forall. intros x _. apply line_ok_fixed.
+  apply forallb_forall. intros x _. apply line_ok_repaired.
 Qed.
 
 (* a block comment whose second line starts with a carriage return (a blank line of a CRLF file) *)
 Theorem combine_comments_text_refuted_lemma :
-  exists u, go_ctext cfg_asis u <> spec_content u.
+  exists u, go_ctext cfg_pinned u <> spec_content u.
 Proof. exists (mkunit true [32; 97; 13; 10; 13; 10; 32; 98; 32] 1). vm_compute. discriminate. Qed.
 
 
@@ -1237,31 +1237,31 @@ Proof.
   unfold gap_ok in Hok. rewrite Forall_forall in Hok. now apply Hok.
 Qed.
 
-(* the code as it is *)
+(* the code before the three repairs *)
 Theorem comments_eq_partial_lemma : forall g,
-  wf_gap g -> g_next g <> NSep -> gap_ok cfg_asis g ->
-  observable (g_next g) (go_attribution g) = observable (g_next g) (next_with_comments g).
+  wf_gap g -> g_next g <> NSep -> gap_ok cfg_pinned g ->
+  observable (g_next g) (go_attribution_pinned g) = observable (g_next g) (next_with_comments g).
 Proof. intros g Hwf Hn Hok. apply comments_eq_lemma; [exact Hwf|congruence|exact Hok]. Qed.
 
-(* with the three repairs: every gap *)
-Theorem comments_eq_fixed_lemma : forall g,
-  wf_gap g -> observable (g_next g) (go_attribution_fixed g) = observable (g_next g) (next_with_comments g).
+(* the code as it is (with the three repairs): every gap *)
+Theorem comments_eq_protoc_lemma : forall g,
+  wf_gap g -> observable (g_next g) (go_attribution g) = observable (g_next g) (next_with_comments g).
 Proof.
   intros g Hwf. apply comments_eq_lemma; [exact Hwf|reflexivity|].
   unfold gap_ok. rewrite Forall_forall. intros u _. split; [|left; reflexivity].
   unfold text_ok. destruct (u_blk u); [|reflexivity]. cbn [negb orb].
-  apply forallb_forall. intros x _. apply line_ok_fixed.
+  apply forallb_forall. intros x _. apply line_ok_repaired.
 Qed.
 
-(* the three classes of gaps on which the code as it is differs from protoc *)
+(* the three classes of gaps on which the code before the repairs differs from protoc *)
 Definition g_sep : gap := mkgap true 1 [mkunit false [32; 99]%N 1] NSep.        (* newline, // c, newline, ; *)
 Definition g_empty : gap := mkgap true 1 [mkunit true []%N 1] NOther.          (* newline, an empty block comment, newline *)
 Definition g_cr : gap := mkgap true 1 [mkunit true [32; 97; 13; 10; 13; 10; 32; 98; 32]%N 1] NOther.
 
 Theorem comments_eq_refuted_lemma :
-  (wf_gap g_sep /\ observable (g_next g_sep) (go_attribution g_sep) <> observable (g_next g_sep) (next_with_comments g_sep)) /\
-  (wf_gap g_empty /\ observable (g_next g_empty) (go_attribution g_empty) <> observable (g_next g_empty) (next_with_comments g_empty)) /\
-  (wf_gap g_cr /\ observable (g_next g_cr) (go_attribution g_cr) <> observable (g_next g_cr) (next_with_comments g_cr)).
+  (wf_gap g_sep /\ observable (g_next g_sep) (go_attribution_pinned g_sep) <> observable (g_next g_sep) (next_with_comments g_sep)) /\
+  (wf_gap g_empty /\ observable (g_next g_empty) (go_attribution_pinned g_empty) <> observable (g_next g_empty) (next_with_comments g_empty)) /\
+  (wf_gap g_cr /\ observable (g_next g_cr) (go_attribution_pinned g_cr) <> observable (g_next g_cr) (next_with_comments g_cr)).
 Proof.
   repeat split; try (cbn; intros; discriminate); vm_compute; discriminate.
 Qed.
@@ -1564,4 +1564,19 @@ Proof.
   pose proof (steps_inv (side cf extra gaps) (side_nodup cf extra gaps) (side_sep cf extra gaps) _ HF ([], [])) as I.
   destruct I as [I _]; [|exact I].
   split; [constructor|intros x []].
+Qed.
+
+(* ================================================================ the boolean form of wf_gap used by the correspondence *)
+Lemma wf_gapb_iff g : wf_gapb g = true <-> wf_gap g.
+Proof.
+  unfold wf_gapb, wf_gap. generalize (g_next g) as next. induction (g_units g) as [|u r IH]; intros next; cbn [wf_unitsb wf_units].
+  - split; auto.
+  - rewrite andb_true_iff, IH. apply and_iff_compat_r.
+    destruct (u_blk u); cbn [orb negb].
+    + split; [intros _ H; discriminate|reflexivity].
+    + destruct (Nat.eqb_spec (u_nls u) 0) as [E|E]; cbn [negb orb].
+      * rewrite andb_true_iff. split.
+        -- intros [H1 H2] _ _. destruct r; [|discriminate]. destruct next; try discriminate. split; reflexivity.
+        -- intros H. destruct (H eq_refl E) as [-> ->]. split; reflexivity.
+      * split; [intros _ _ H; contradiction|reflexivity].
 Qed.
